@@ -4,11 +4,11 @@ package main
 // (structural clauses; DESIGN §3 C08).
 
 import (
-	"sort"
-	"go/token"
 	"fmt"
 	"go/constant"
+	"go/token"
 	"go/types"
+	"sort"
 	"strings"
 
 	"golang.org/x/tools/go/ssa"
@@ -245,6 +245,48 @@ func c08Client(c *Ctx, r *Report, ci *clientInfo, control bool) map[string]bool 
 		}
 		rep("R8.1", ctxRet, "the ctx.Done() case returns ctx.Err()", "", "ctx-case", sp)
 		rep("R8.1", toRet, "the timeout case returns a *ClientError", "", "timeout-case", sp)
+		// ... on every path: once a stop case has fired, control never comes back to the select
+		// (the time.After channel delivers one value only: a path from its case back into the loop
+		// polls a channel that stays silent, and the call no longer ends by itself)
+		if selFr == fr {
+			ext := selIndexExtract(sel)
+			for _, b := range fr.fn.Blocks {
+				if len(b.Instrs) == 0 {
+					continue
+				}
+				iff, ok := b.Instrs[len(b.Instrs)-1].(*ssa.If)
+				if !ok {
+					continue
+				}
+				bo, ok := iff.Cond.(*ssa.BinOp)
+				if !ok || bo.Op != token.EQL || bo.X != ext {
+					continue
+				}
+				k, ok := bo.Y.(*ssa.Const)
+				if !ok || k.Value == nil || k.Int64() < 0 || k.Int64() > 1 {
+					continue
+				}
+				seen := map[*ssa.BasicBlock]bool{}
+				back := false
+				var walk func(x *ssa.BasicBlock)
+				walk = func(x *ssa.BasicBlock) {
+					if seen[x] || back {
+						return
+					}
+					seen[x] = true
+					if x == sel.Block() {
+						back = true
+						return
+					}
+					for _, sx := range x.Succs {
+						walk(sx)
+					}
+				}
+				walk(b.Succs[0])
+				what := map[int64]string{0: "ctx.Done()", 1: "timeout"}[k.Int64()]
+				rep("R8.1", !back, "no path leads from the "+what+" case back to the select", "", "stop-case-continues:"+what, c.pos(iff.Pos()))
+			}
+		}
 		if selFr != fr && len(idx.a.terms) > 0 {
 			// the poll is a helper's: the exchange goes on only where neither case fired, and where one
 			// fired the helper's error is what do returns
